@@ -442,10 +442,13 @@ theorem C09_binary_program : BinaryProgramOK := by
   · simp [hn]
   have hc : binaryMethods.contains name = true := by simpa using hn
   have fin : ∀ (d : Array ℚ) (f : ℕ → Bool) (oF : Bool) (oi : Option (List String)),
-      (⟨S.shape, d, tabulate S.N fun k => (tabulate S.N f).getD k false || (binopMaskCorners && cornerFlat S.N k),
+      (⟨S.shape, d, tabulate S.N fun k =>
+          ctorMask S.shape (binopFolded S.folded oF) (fun j => d.getD j 0) (fun j => (tabulate S.N f).getD j false) k
+            || (binopMaskCorners && cornerFlat S.N k),
         binopFolded S.folded oF, binopPopIds S.popIds oi⟩ : Spec)
       = ⟨S.shape, d, tabulate S.N f, S.folded, S.popIds.orElse fun _ => oi⟩ := by
     intro d f oF oi
+    simp only [ctorMask_eq]
     rw [tabulate_getD_or]
     refine spec_eq_of rfl rfl ?_ ?_ ?_
     · dsimp only
@@ -454,10 +457,13 @@ theorem C09_binary_program : BinaryProgramOK := by
     · show binopPopIds S.popIds oi = _
       unfold binopPopIds; cases S.popIds <;> cases oi <;> simp
   have fin' : ∀ (d : Array ℚ) (f : ℕ → Bool) (oF : Bool),
-      (⟨S.shape, d, tabulate S.N fun k => (tabulate S.N f).getD k false || (binopMaskCorners && cornerFlat S.N k),
+      (⟨S.shape, d, tabulate S.N fun k =>
+          ctorMask S.shape (binopFolded S.folded oF) (fun j => d.getD j 0) (fun j => (tabulate S.N f).getD j false) k
+            || (binopMaskCorners && cornerFlat S.N k),
         binopFolded S.folded oF, S.popIds⟩ : Spec)
       = ⟨S.shape, d, tabulate S.N f, S.folded, S.popIds.orElse fun _ => none⟩ := by
     intro d f oF
+    simp only [ctorMask_eq]
     rw [tabulate_getD_or]
     refine spec_eq_of rfl rfl ?_ ?_ ?_
     · dsimp only
@@ -704,6 +710,50 @@ theorem C09_arith_keeps (name : String) (S R : Spec) (o : Operand) (h : binop na
     (Only this constructor flag is tied by translation; that no buffer is shared in fact — result vs operands, both
     directions, after later masking — is checked on the implementation by L3, aliasing is not part of the value-level model.) -/
 theorem C09_arith_fresh : binopCopies = true := by decide
+
+/-- **The constructor keeps the mask (and the data) it is given** — for spectra of EVERY shape, whole ones and slices alike, with every
+    mask (corners open, entries beyond the fold unmasked, …), folded or not.  `ctor_selfMaskAfter` / `ctor_selfDataAfter` are the
+    translation of the `if data_folded:` block of `Spectrum.__new__` (the consistency checks there only warn; the block contains
+    no store, `ctor_foldedBlockStores = 0`); `ctorSpec` adds `if mask_corners: subarr.mask_corners()`.  Hence the result of the
+    constructor has the mask passed, plus the two corners iff `mask_corners`; and every binary operator — which builds its result
+    through this constructor with `data_folded = self.folded` and `mask_corners=False` — returns exactly the union of the operand
+    masks on a folded spectrum of any shape, also where `_total_per_entry` of THAT shape exceeds half the total.
+    An enforcement such as `subarr.mask[where_folded_out] = True` in the block changes the generated definition and breaks this proof
+    (and `ctorMask_eq`, on which `C09_binary_program` rests). -/
+theorem C09_ctor_keeps_mask :
+    (∀ {ι : Type} (mirror : ι → ι) (total : ι → ℕ) (T : ℕ) (x : ι → ℚ) (m : ι → Bool) (i : ι),
+        ctor_selfMaskAfter mirror total T x m i = m i ∧ ctor_selfDataAfter mirror total T x m i = x i)
+    ∧ ctor_foldedBlockStores = 0
+    ∧ (∀ (S : Spec) (mc : Bool) (k : ℕ), k < S.N →
+        (ctorSpec S mc).m k = (S.m k || (mc && cornerFlat S.N k)) ∧ (ctorSpec S mc).x k = S.x k)
+    ∧ (∀ (S : Spec) (mc : Bool), (ctorSpec S mc).folded = S.folded ∧ (ctorSpec S mc).popIds = S.popIds
+        ∧ (ctorSpec S mc).shape = S.shape)
+    ∧ (∀ (name : String) (S R : Spec) (o : Operand), binop name S o = .ok R →
+        ∀ k < S.N, R.m k = (S.m k || o.maskAt k)) := by
+  refine ⟨?_, rfl, ?_, fun S mc => ⟨rfl, rfl, rfl⟩, ?_⟩
+  · intro ι mirror total T x m i
+    constructor <;> ctor_program_unfold
+  · intro S mc k hk
+    constructor
+    · show (tabulate S.N fun k => ctorMask S.shape S.folded S.x S.m k || (mc && cornerFlat S.N k)).getD k false = _
+      rw [tabulate_getD _ _ _ hk, ctorMask_eq]
+    · show (tabulate S.N fun k => ctorData S.shape S.folded S.x S.m k).getD k 0 = _
+      rw [tabulate_getD _ _ _ hk, ctorData_eq]
+  · intro name S R o h k hk
+    obtain ⟨M, _, _, _, h4, _⟩ := C09_arith_keeps name S R o h
+    exact (h4 k hk).2
+
+/-- not vacuous, and the situation of the class: a SLICE `f[:3]` of a folded 1-D spectrum of 8 entries (folded, shape `[3]`, mask
+    `[True, False, False]`): for that shape entry 2 lies beyond the fold (2 > int(2/2)), it is unmasked, and it stays unmasked in
+    `f[:3] + 1`; the constructor called on it with `data_folded=True` keeps the mask too. -/
+example : (ctorSpec ⟨[3], #[0, 5, 7], #[true, false, false], true, none⟩ false).mask = #[true, false, false]
+    ∧ (ctorSpec ⟨[3], #[0, 5, 7], #[true, false, false], true, none⟩ true).mask = #[true, false, true]
+    ∧ totalFlat [3] 2 > totalSamples [3] / 2
+    ∧ ∃ R, binop "__add__" ⟨[3], #[0, 5, 7], #[true, false, false], true, none⟩ (.scalar 1) = .ok R
+        ∧ R.mask = #[true, false, false] ∧ R.folded = true := by
+  refine ⟨by decide, by decide, by decide, _, (C09_binary_program _ _ _).trans
+    (binopClosed_eq_ok (by decide) (by simp [foldingRefused, Operand.isSpectrum]) (by decide) rfl rfl
+      (arithDefined_ring _ _ _ (Or.inl rfl))), by decide, rfl⟩
 
 /-- The same for the in-place templates; shape, folding status and labels of `self` are untouched, and the returned
     spectrum is `self` as the call left it. -/
